@@ -152,22 +152,37 @@ def split_props(props):
     return a, b
 
 
+def alias(x, memo):
+    """the same mapping with equal sub-dicts being ONE shared Python object (as when a mapping is assembled from reusable pieces)"""
+    if isinstance(x, dict):
+        y = {k: alias(v, memo) for k, v in x.items()}
+        key = json.dumps(y, sort_keys=True)
+        return memo.setdefault(key, y)
+    return x
+
+
 def check(item):
     idx, props, layout = item
     mp = {"properties": to_mapping(props)}
+    if layout == "aliased":
+        mp = alias(mp, {})
     if layout == "typed2":
         pa, pb = split_props(props)
         if not pa or not pb:
             return 0, []
         schema = {"mappings": {"type_a": {"properties": to_mapping(pa)}, "type_b": {"properties": to_mapping(pb)}}}
     else:
-        schema = {"mappings": mp if layout == "current" else {"doc_type": mp}}
+        schema = {"mappings": mp if layout in ("current", "aliased") else {"doc_type": mp}}
     fails = []
     n = 0
     try:
         options = SchemaAnalyzer(schema).query_builder_options()
     except Exception as e:  # noqa: BLE001
         return 1, [{"input": json.dumps(schema), "observation": "SchemaAnalyzer raised %r" % (e,)}]
+    try:
+        shared = ElasticsearchQueryBuilder(**options)          # one builder for all the queries on this mapping (no dependence on earlier calls)
+    except Exception:  # noqa: BLE001
+        shared = None
     for path, analysed, nested in leaves(props):
         full = ".".join(path)
         spellings = [full + ":x"]
@@ -182,6 +197,11 @@ def check(item):
             n += 1
             try:
                 js = ElasticsearchQueryBuilder(**options)(parser.parse(q))
+                if shared is not None:
+                    js2 = shared(parser.parse(q))
+                    if json.dumps(js2, sort_keys=True) != json.dumps(js, sort_keys=True):
+                        fails.append({"input": q, "schema": json.dumps(schema), "signature": "history",
+                                      "observation": "a builder that has translated other queries before gives %s, a fresh one %s" % (json.dumps(js2)[:200], json.dumps(js)[:200])})
             except Exception as e:  # noqa: BLE001
                 fails.append({"input": q, "schema": json.dumps(schema), "signature": "raised",
                               "observation": "builder raised %s: %s (options %r)" % (type(e).__name__, e, options)})
@@ -219,6 +239,16 @@ HAND = [
     [("n", ("nested", [("x", TXT), ("m", ("nested", [("z", L), ("mm", ("nested", [("u", TXT)]))]))])), ("nx", L), ("n_m", TXT)],
     [("book", ("object", [("title", "text+raw"), ("author", ("object", [("name", TXT), ("born", "integer")]))])),
      ("reviews", ("nested", [("stars", "integer"), ("by", ("object", [("nick", L)]))]))],
+    # the same name component in two roles (top-level object and nested below another field)
+    [("book", ("object", [("title", TXT)])), ("author", ("nested", [("name", L), ("book", ("nested", [("title", L)]))]))],
+    [("author", ("nested", [("name", TXT)])), ("publisher", ("nested", [("city", L), ("author", ("nested", [("name", L)]))]))],
+    # sibling fields whose names start alike (no dot in between)
+    [("title", TXT), ("title_translations", ("nested", [("en", TXT)]))],
+    [("author", ("object", [("name", L), ("name_parts", ("object", [("first", TXT)])), ("tag", L), ("tags", ("nested", [("label", L)]))]))],
+    [("shop", ("nested", [("city", L), ("city_area", ("object", [("code", "integer")]))]))],
+    # identical sub-structures (shared dict objects in the aliased layout)
+    [("billing", ("object", [("street", TXT), ("zip", L)])), ("shipping", ("object", [("street", TXT), ("zip", L)])),
+     ("contacts", ("nested", [("street", TXT), ("zip", L)])), ("lines", ("nested", [("qty", "integer"), ("suppliers", ("nested", [("street", TXT), ("zip", L)]))]))],
 ]
 
 
@@ -330,7 +360,7 @@ def main():
         allprops += gen_props(len(w), ["f", "g"], tuple(w), True)
     allprops += HAND
     for props in allprops:
-        for layout in ("current", "typed", "typed2"):
+        for layout in ("current", "typed", "typed2", "aliased"):
             items.append((idx, props, layout))
             idx += 1
     res = pmap(check, items)
@@ -339,7 +369,7 @@ def main():
     rest, hit = classify(failures, p.get("known", []))
     emit({"ok": not rest, "evaluations": sum(r[0] for r in res) + n2, "distinct_nontrivial": len(items),
           "rule": "all mappings of depth <= 2 with 1-2 fields per level, plus deeper ones with per-level widths %r, plus per-level widths %r with the extended kinds (legacy string / not_analyzed string, integer, keyword with a text multi-field, object declared by properties only); kinds {text, keyword, text with "
-                  "keyword multi-field, object, nested}, three layouts (current, one legacy document type, two legacy document types sharing containers); every leaf field x up to 3 query spellings; + spelling groups of field "
+                  "keyword multi-field, object, nested}, four layouts (current, one legacy document type, two legacy document types sharing containers, current with equal sub-dicts shared as one object); every leaf field x up to 3 query spellings; + spelling groups of field "
                   "specs; %d hand-picked deeper mappings; distinct = (mapping, layout)" % (p.get("deep", []), p.get("ext", []), len(HAND)),
           "bound": "mapping depth <= 2 width <= 2, deeper: widths %r, extended kinds: widths %r" % (p.get("deep", []), p.get("ext", [])),
           "samples": [{"mapping": to_mapping(gen_props(2, ["f", "g"])[7])}],
